@@ -22,7 +22,10 @@
  *   `p<PRIO>` / `s<KB>` go through p_uthread_create_full, `x` lets the new thread run into the library's proxy
  *   while the creator is still inside p_uthread_create_full (p_spinlock_lock is wrapped: the creator returns from
  *   the native create only once the child has reached the creation spinlock), `eperm` makes the first native
- *   create fail with EPERM (the library retries), `eagain` makes it fail for good (create returns NULL).
+ *   create fail with EPERM (the library retries), `eagain` makes it fail for good, `fail:attr` / `fail:detach` make
+ *   pthread_attr_init / pthread_attr_setdetachstate fail (create returns NULL; the PUThread block the call allocated takes
+ *   the next handle id and is reported in F= when the library released it inside the call, in L= from then on when not).
+ * - `A join H fail`: p_uthread_join with the native pthread_join reporting an error (ESRCH, nothing is joined).
  * - `A prio H P` calls p_uthread_set_priority on a library-created thread that has not ended (no effect on handles).
  * - every case (ops up to `reset`) runs in a forked child; a sanitizer abort ends the whole run with
  *   the child's status.
@@ -45,6 +48,9 @@
 
 int __real_pthread_create (pthread_t *, const pthread_attr_t *, void *(*) (void *), void *);
 int __real_pthread_key_create (pthread_key_t *, void (*) (void *));
+int __real_pthread_attr_init (pthread_attr_t *);
+int __real_pthread_attr_setdetachstate (pthread_attr_t *, int);
+int __real_pthread_join (pthread_t, void **);
 int __real_pthread_key_delete (pthread_key_t);
 int __real_pthread_setspecific (pthread_key_t, const void *);
 void *__real_pthread_getspecific (pthread_key_t);
@@ -81,8 +87,14 @@ static int nblk, baseline, shut_comp;      /* shut_comp: init-time blocks that s
 static pthread_mutex_t amx = PTHREAD_MUTEX_INITIALIZER;
 static int freedH[256], nfreedH;
 
+/* the first block of at least 32 bytes the calling thread allocates while `watch_big` is set (the PUThread block of a
+ * p_uthread_create* call, the PUThreadBase block of p_uthread_current), and whether it has been freed again */
+static __thread int watch_big, first_big_freed;
+static __thread void *first_big;
+
 static ppointer t_malloc (psize n) {
 	void *p = malloc (n ? n : 1);
+	if (watch_big && first_big == NULL && n >= 32) first_big = p;
 	pthread_mutex_lock (&amx);
 	if (nblk >= MAXB) DIE ("block table full");
 	blks[nblk].p = p; blks[nblk].tag = 0; blks[nblk].id = -1; nblk++;
@@ -91,6 +103,7 @@ static ppointer t_malloc (psize n) {
 }
 static void t_free (ppointer p) {
 	if (p == NULL) return;
+	if (watch_big && p == first_big && !first_big_freed) first_big_freed = 1;
 	pthread_mutex_lock (&amx);
 	int i;
 	for (i = nblk - 1; i >= 0; i--) if (blks[i].p == p) break;
@@ -128,6 +141,7 @@ enum { O_NONE, O_CREATE, O_SET, O_REPLACE, O_GET, O_CURRENT, O_EXIT, O_RETURN, O
 typedef struct {
 	int kind, k, h, joinable, named, notif; long code; unsigned long v;
 	int jv, namelen, full, prio, cmode; unsigned long stack;      /* create options */
+	int jfail;                                                   /* join: the native pthread_join reports an error */
 	char res[48];
 } Op;
 typedef struct {
@@ -285,6 +299,21 @@ int __wrap_pthread_create (pthread_t *t, const pthread_attr_t *attr, void *(*fn)
 	return r;
 }
 
+/* scripted failures of native calls (each consumed by the next call of the library) */
+static int fail_attr_init, fail_detach, fail_join;
+int __wrap_pthread_attr_init (pthread_attr_t *a) {
+	if (fail_attr_init) { fail_attr_init = 0; return ENOMEM; }
+	return __real_pthread_attr_init (a);
+}
+int __wrap_pthread_attr_setdetachstate (pthread_attr_t *a, int st) {
+	if (fail_detach) { fail_detach = 0; return EINVAL; }
+	return __real_pthread_attr_setdetachstate (a, st);
+}
+int __wrap_pthread_join (pthread_t t, void **r) {
+	if (fail_join) { fail_join = 0; return ESRCH; }      /* the thread is NOT joined */
+	return __real_pthread_join (t, r);
+}
+
 /* ---- handle bookkeeping */
 static int tag_handle (PUThread *p, int thread, int joinable, int ur, int ours) {
 	pthread_mutex_lock (&amx);
@@ -317,13 +346,34 @@ static void exec_op (Slot *s) {
 			if (o->namelen < 0) name = "w";
 			else { for (int i = 0; i < o->namelen; i++) nbuf[i] = (char) ('a' + i % 26); nbuf[o->namelen] = 0; name = nbuf; }
 		}
-		create_mode = o->cmode;
+		create_mode = o->cmode == 2 ? 2 : o->cmode == 3 ? 3 : o->cmode == 1 ? 1 : 0;
+		fail_attr_init = o->cmode == 4; fail_detach = o->cmode == 5;
+		watch_big = 1; first_big = NULL; first_big_freed = 0;
 		PUThread *p = o->full ? p_uthread_create_full (worker, NULL, o->jv, (PUThreadPriority) o->prio, (psize) o->stack, name)
 				      : p_uthread_create (worker, NULL, o->jv, name);
+		watch_big = 0;
 		create_mode = 0;
+		if (fail_attr_init || fail_detach) DIE ("scripted native failure was not consumed");
 		if (p == NULL) {
-			if (o->cmode == 2) { strcpy (o->res, "NULL"); break; }
+			if (o->cmode == 2 || o->cmode == 4 || o->cmode == 5) {
+				/* the block the failed call allocated takes the next handle id: released inside the call (F=), or - if the
+				 * library kept it - alive from now on (L=) */
+				pthread_mutex_lock (&amx);
+				if (nextH >= MAXH) DIE ("too many handles");
+				int id = nextH++;
+				hptr[id] = NULL; urefs[id] = 0; hthread[id] = -1; hjoinable[id] = 0; hjoined[id] = 0; hthreadref[id] = 0; hours[id] = 0;
+				if (first_big != NULL && first_big_freed) freedH[nfreedH++] = id;
+				else if (first_big != NULL) { int i = blk_find (first_big); if (i >= 0) { blks[i].tag = 'H'; blks[i].id = id; } }
+				pthread_mutex_unlock (&amx);
+				strcpy (o->res, "NULL");
+				break;
+			}
 			DIE ("p_uthread_create failed");
+		}
+		if (o->cmode == 2 || o->cmode == 4 || o->cmode == 5) {
+			/* the native layer failed and the library still handed out a handle */
+			snprintf (o->res, 48, "nonnull-after-native-failure");
+			break;
 		}
 		int t = last_created_slot;
 		int h = tag_handle (p, t, o->joinable, 1, 1);
@@ -352,7 +402,11 @@ static void exec_op (Slot *s) {
 		break;
 	case O_REF: p_uthread_ref (hptr[o->h]); break;
 	case O_UNREF: p_uthread_unref (hptr[o->h]); break;
-	case O_JOIN: snprintf (o->res, 48, "%d", (int) p_uthread_join (hptr[o->h])); break;
+	case O_JOIN:
+		fail_join = o->jfail;
+		snprintf (o->res, 48, "%d", (int) p_uthread_join (hptr[o->h]));
+		if (fail_join) DIE ("scripted pthread_join failure was not consumed");
+		break;
 	case O_PRIO: (void) p_uthread_set_priority (hptr[o->h], (PUThreadPriority) o->prio); break;
 	case O_KEYNEW: {
 		PDestroyFunc f = NULL;
@@ -493,6 +547,8 @@ static void run_case (char **lines, int n) {
 				else if (!strcmp (x, "x")) o.cmode = o.cmode ? 99 : 1;
 				else if (!strcmp (x, "eagain")) o.cmode = o.cmode ? 99 : 2;
 				else if (!strcmp (x, "eperm")) o.cmode = o.cmode ? 99 : 3;
+				else if (!strcmp (x, "fail:attr")) o.cmode = o.cmode ? 99 : 4;
+				else if (!strcmp (x, "fail:detach")) o.cmode = o.cmode ? 99 : 5;
 				else if (x[0] == 'p' && digits && atoi (x + 1) <= 7) { o.full = 1; o.prio = atoi (x + 1); }
 				else if (x[0] == 's' && digits) { o.full = 1; o.stack = (unsigned long) atoi (x + 1) * 1024UL; }
 				else okc = 0;
@@ -553,6 +609,13 @@ static void run_case (char **lines, int n) {
 				if (hjoinable[h]) hjoined[h] = 1;
 				answer (o.res, "", 1);
 			}
+		} else if (!strcmp (op, "join") && nw == 4 && !strcmp (w[3], "fail")) {
+			/* p_uthread_join whose native pthread_join reports an error: comes back at once whatever the target is doing */
+			int h = atoi (w[2]), busy = 0;
+			for (int t = 1; t < nextT; t++) if (slots[t].joining && slots[t].join_h == h) busy = 1;
+			if (!running || h < 0 || h >= nextH || !permitted_use (a, h) || hjoined[h] || !hjoinable[h] || busy) { bad (); continue; }
+			o.kind = O_JOIN; o.h = h; o.jfail = 1; dispatch (a, &o);
+			answer (o.res, "", 1);
 		} else if (!strcmp (op, "jbegin") && nw == 3) {
 			int h = atoi (w[2]);
 			if (!running || a == 0 || h < 0 || h >= nextH || !permitted_use (a, h) || hjoined[h] || !hjoinable[h]) { bad (); continue; }
